@@ -137,7 +137,8 @@ def main(chk):
     gen, gstats = ormgraph_shapes.generate(chk, rng, 600 if q else 6000, len(traces) + 1)
     for g in gen:
         if g.get("violation"):
-            chk.violation({"spec": "TraceUow", "action": "Flush", "shape": g["shape"], "kind": "flush-raised-" + g.get("exc", "?")}, g["violation"], g)
+            chk.violation({"spec": "TraceUow", "action": "Flush", "shape": g["shape"], "kind": ("rows-differ-from-projection" if g.get("exc") == "rows-differ" else "flush-raised-" + g.get("exc", "?"))},
+                          g["violation"], g)
     traces += [g for g in gen if g.get("ev")]
     kinds = {}
     ops = {}
